@@ -87,7 +87,7 @@ func DecryptMessageWithTempKeys(msg []byte, nonceSecond, nonceServer *big.Int) [
 	decodedMessage := decodedWithHash[20:]
 
 	// режем последние 0-15 байт ориентируюясь по хешу
-	for i := len(decodedMessage) - 1; i > len(decodedMessage)-16; i-- {
+	for i := len(decodedMessage); i > len(decodedMessage)-16 && i >= 0; i-- {
 		if bytes.Equal(decodedHash, dry.Sha1Byte(decodedMessage[:i])) {
 			return decodedMessage[:i]
 		}
@@ -103,7 +103,7 @@ func EncryptMessageWithTempKeys(msg []byte, nonceSecond, nonceServer *big.Int) [
 	// добавляем остаток рандомных байт в сообщение, что бы суммарно оно делилось на 16
 	totalLen := len(hash) + len(msg)
 	overflowedLen := totalLen % 16
-	needToAdd := 16 - overflowedLen
+	needToAdd := (16 - overflowedLen) % 16 // 0-15 bytes, nothing if it's already divisible
 
 	msg = bytes.Join([][]byte{hash, msg, dry.RandomBytes(needToAdd)}, []byte{})
 	return encryptMessageWithTempKeys(msg, nonceSecond, nonceServer)
